@@ -30,9 +30,18 @@ type aFault struct {
 	Kind  string `json:"kind"`
 }
 type aCase struct {
-	Cfg     aCfg   `json:"cfg"`
-	Fault   aFault `json:"fault"`
-	Outcome string `json:"outcome"`
+	Cfg     aCfg     `json:"cfg"`
+	Faults  []aFault `json:"faults"`
+	Outcome string   `json:"outcome"`
+}
+
+func (c aCase) hasFault(msg, kind string) bool {
+	for _, f := range c.Faults {
+		if f.Msg == msg && (kind == "" || f.Kind == kind) {
+			return true
+		}
+	}
+	return false
 }
 
 func randBits(rng *mrand.Rand, bits uint) *big.Int {
@@ -185,7 +194,7 @@ func main() {
 	lines := hx.ReadNDJSON(a.In)
 	nlay := 3
 	if a.Tier == "thorough" {
-		nlay = 24
+		nlay = 6
 	}
 	type job struct {
 		c  aCase
@@ -244,13 +253,13 @@ func runCase(kp hx.KeyPair, acc *revocation.Accumulator, sacc *revocation.Signed
 	A := newRun(kp, c.Cfg, l, acc, sacc, kssSecret, rng) // the run under attack
 	B := newRun(kp, c.Cfg, l, acc, sacc, kssSecret, rng) // a parallel honest run: source of substitutions
 	key := ""
-	if c.Fault.Msg != "none" {
-		key = fmt.Sprintf("%v/%v/%s", c.Cfg, c.Fault, l)
+	if len(c.Faults) > 0 {
+		key = fmt.Sprintf("%v/%v/%s", c.Cfg, c.Faults, l)
 	}
 	res.Eval(key)
 	det := hx.M{"case": c, "layout": l.String(), "key": kp.PK.Issuer}
-	f := c.Fault
 	outcome := ""
+	fdesc := fmt.Sprint(c.Faults)
 	var cred *gabi.Credential
 	var ism *gabi.IssueSignatureMessage
 	panicked, msg := hx.Try(func() {
@@ -259,7 +268,10 @@ func runCase(kp hx.KeyPair, acc *revocation.Accumulator, sacc *revocation.Signed
 		pu, _ := icm.Proofs.GetFirstProofU()
 		bu, _ := B.icm.Proofs.GetFirstProofU()
 		ctxView, nonce1View := A.ctx, A.nonce1
-		if f.Msg == "icm" {
+		for _, f := range c.Faults {
+			if f.Msg != "icm" {
+				continue
+			}
 			pick := func(orig, other *big.Int) *big.Int {
 				switch f.Kind {
 				case "alter":
@@ -313,14 +325,17 @@ func runCase(kp hx.KeyPair, acc *revocation.Accumulator, sacc *revocation.Signed
 		}
 		// the parallel run's answer, for substitutions
 		var bism *gabi.IssueSignatureMessage
-		if f.Msg == "ism" && f.Kind == "other" {
+		if c.hasFault("ism", "other") {
 			bism, err = gabi.NewIssuer(kp.SK, kp.PK, B.ctx).IssueSignature(bu.U, B.attrs, B.witness, B.icm.Nonce2, B.blind)
 			if err != nil {
 				hx.Fatal("parallel run: %v", err)
 			}
 		}
 		// ---- network, second message
-		if f.Msg == "ism" {
+		for _, f := range c.Faults {
+			if f.Msg != "ism" {
+				continue
+			}
 			pick := func(orig *big.Int, other func() *big.Int) *big.Int {
 				switch f.Kind {
 				case "alter":
@@ -389,13 +404,13 @@ func runCase(kp hx.KeyPair, acc *revocation.Accumulator, sacc *revocation.Signed
 		}
 		outcome = "cred"
 	})
-	res.Count(fmt.Sprintf("%s/%s:code=%s:spec=%s", f.Msg, f.Kind, outcome, c.Outcome))
+	res.Count(fmt.Sprintf("faults=%d:code=%s:spec=%s", len(c.Faults), outcome, c.Outcome))
 	if outcome == "cred-with-error" {
-		res.Violation("credential-from-tampered-run", fmt.Sprintf("ConstructCredential returned an error AND a credential (%s %s %s)", f.Msg, f.Field, f.Kind), det)
+		res.Violation("credential-from-tampered-run", fmt.Sprintf("ConstructCredential returned an error AND a credential (%s)", fdesc), det)
 		return
 	}
 	if panicked {
-		res.Violation("issuance-panic", fmt.Sprintf("issuance panicked instead of rejecting (%s %s %s): %s", f.Msg, f.Field, f.Kind, msg), det)
+		res.Violation("issuance-panic", fmt.Sprintf("issuance panicked instead of rejecting (%s): %s", fdesc, msg), det)
 		return
 	}
 	switch c.Outcome {
@@ -413,13 +428,13 @@ func runCase(kp hx.KeyPair, acc *revocation.Accumulator, sacc *revocation.Signed
 		}
 	case "issuer-reject":
 		if outcome != "issuer-reject" {
-			res.Violation("issuer-accepted-tampered-commitment", fmt.Sprintf("the issuer did not reject a commitment message with %s %s (%s); run ended in %s", f.Field, f.Kind, f.Msg, outcome), det)
+			res.Violation("issuer-accepted-tampered-commitment", fmt.Sprintf("the issuer did not reject a tampered commitment message (%s); run ended in %s", fdesc, outcome), det)
 			return
 		}
 		return
 	case "user-reject":
 		if outcome == "cred" {
-			res.Violation("credential-from-tampered-run", fmt.Sprintf("a credential was produced although %s of the %s was %s", f.Field, f.Msg, f.Kind), det)
+			res.Violation("credential-from-tampered-run", fmt.Sprintf("a credential was produced although the run was tampered with (%s)", fdesc), det)
 		}
 		return
 	}
@@ -448,5 +463,5 @@ func runCase(kp hx.KeyPair, acc *revocation.Accumulator, sacc *revocation.Signed
 			res.Violation("credential-without-usable-witness", fmt.Sprintf("honest run with witness: %v", err), det)
 		}
 	}
-	res.Sample(hx.M{"cfg": c.Cfg, "fault": c.Fault, "layout": l.String(), "outcome": outcome})
+	res.Sample(hx.M{"cfg": c.Cfg, "faults": c.Faults, "layout": l.String(), "outcome": outcome})
 }
